@@ -47,6 +47,7 @@ type RunResult struct {
 	Log        []string      `json:"-"`
 	Stalls     int           `json:"stalls"`
 	RaceDelta  int           `json:"race_delta,omitempty"`
+	Races      []RaceReport  `json:"races,omitempty"`
 }
 
 // RunOpts controls one run.
@@ -84,68 +85,104 @@ func RunOne(t *testing.T, prop string, seed uint64, opts RunOpts) (res RunResult
 		panic("unknown property " + prop)
 	}
 	res.Seed = seed
-	var sim *simrt.Sim
-	var env *Env
-	finished := false
 	race0 := simrt.RaceErrors()
-	defer func() {
-		if r := recover(); r != nil {
-			msg := fmt.Sprint(r)
-			if finished && strings.Contains(msg, "deadlock") {
-				res.Leak = true
+	body := func(t *testing.T) {
+		var sim *simrt.Sim
+		var env *Env
+		finished := false
+		defer func() {
+			if r := recover(); r != nil {
+				msg := fmt.Sprint(r)
+				if finished && strings.Contains(msg, "deadlock") {
+					res.Leak = true
+				} else {
+					res.Crash = msg
+				}
+			}
+			if sim != nil {
+				sim.Finish()
+			}
+		}()
+		synctest.Test(t, func(t *testing.T) {
+			simrt.ResetPools()
+			var tape *simrt.Tape
+			if opts.IsReplay {
+				tape = simrt.NewReplayTape(opts.Replay)
 			} else {
-				res.Crash = msg
+				tape = simrt.NewTape(seed)
+				swarm(seed, tape)
+				if def.Swarm != nil {
+					def.Swarm(simrt.NewRng(seed^0x5151), tape)
+				}
 			}
-		}
-		if sim != nil {
+			sim = simrt.New(tape)
+			sim.KeepLog = opts.KeepLog
+			env = &Env{Sim: sim, Tape: tape, Prop: prop, Verbose: opts.Verbose, Mute: def.Race}
+			def.Run(env)
+			for _, pt := range env.EscapedPanics() {
+				if !strings.HasPrefix(pt.Name, "teardown") {
+					env.Violate("no-escaped-panic", "task-died", "task %s died with panic: %v", pt.Name, pt.Panic)
+				}
+			}
 			sim.Finish()
-		}
-		res.RaceDelta = simrt.RaceErrors() - race0
-	}()
-	synctest.Test(t, func(t *testing.T) {
-		simrt.ResetPools()
-		var tape *simrt.Tape
-		if opts.IsReplay {
-			tape = simrt.NewReplayTape(opts.Replay)
-		} else {
-			tape = simrt.NewTape(seed)
-			swarm(seed, tape)
-			if def.Swarm != nil {
-				def.Swarm(simrt.NewRng(seed^0x5151), tape)
+			res.Viol = env.Viol
+			res.Steps, res.Switches, res.Stalls = sim.Steps, sim.Switches, sim.Stalls
+			res.FakeNs = int64(sim.Now())
+			res.Inconcl = env.Inconclusive
+			res.End = env.End
+			res.Tape = tape.Rec
+			res.Diverged = tape.Diverged
+			h := sim.SchedHash
+			for _, en := range tape.Rec {
+				if en.Kind == simrt.KParam || en.Kind == simrt.KNet {
+					h = (h ^ uint64(en.V+1)) * 1099511628211
+				}
+			}
+			res.CaseHash = h
+			res.Pairs = sim.Pairs
+			res.Counters = env.Counters()
+			res.Outcomes = sim.Outcomes
+			res.Desc = env.Desc
+			res.Notes = env.Notes
+			res.Log = sim.Log
+			finished = true
+		})
+	}
+	if simrt.RaceEnabled {
+		// the testing package fails (FailNow) a test in which the detector fired: isolate every run in a subtest
+		t.Run("run", body)
+	} else {
+		body(t)
+	}
+	res.RaceDelta = simrt.RaceErrors() - race0
+	if res.RaceDelta > 0 {
+		res.Races = CollectRaces()
+	}
+	if def.Race {
+		res.Viol = nil
+		for _, r := range res.Races {
+			if r.RepoA || r.RepoB {
+				v := Violation{Prop: prop, Clause: "race", Class: r.Sig, Detail: fmt.Sprintf("unsynchronised conflicting accesses: [%s] and [%s] (line numbers refer to the instrumented copy)", r.A, r.B)}
+				if hasSig(res, v.Sig()) == nil {
+					res.Viol = append(res.Viol, v)
+				}
+			} else {
+				if res.Counters == nil {
+					res.Counters = map[string]int{}
+				}
+				res.Counters["race_reports_inside_harness_only(ignored)"]++
+				if os.Getenv("VERIF_SHOW_ARTIFACTS") != "" {
+					fmt.Fprintln(os.Stderr, "ARTIFACT", r.A, "|", r.B)
+				}
 			}
 		}
-		sim = simrt.New(tape)
-		sim.KeepLog = opts.KeepLog
-		env = &Env{Sim: sim, Tape: tape, Prop: prop, Verbose: opts.Verbose}
-		def.Run(env)
-		for _, pt := range env.EscapedPanics() {
-			if !strings.HasPrefix(pt.Name, "teardown") {
-				env.Violate("no-escaped-panic", "task-died", "task %s died with panic: %v", pt.Name, pt.Panic)
+		if simrt.RaceEnabled {
+			if res.Counters == nil {
+				res.Counters = map[string]int{}
 			}
+			res.Counters["runs_under_race_detector"]++
 		}
-		sim.Finish()
-		res.Viol = env.Viol
-		res.Steps, res.Switches, res.Stalls = sim.Steps, sim.Switches, sim.Stalls
-		res.FakeNs = int64(sim.Now())
-		res.Inconcl = env.Inconclusive
-		res.End = env.End
-		res.Tape = tape.Rec
-		res.Diverged = tape.Diverged
-		h := sim.SchedHash
-		for _, en := range tape.Rec {
-			if en.Kind == simrt.KParam || en.Kind == simrt.KNet {
-				h = (h ^ uint64(en.V+1)) * 1099511628211
-			}
-		}
-		res.CaseHash = h
-		res.Pairs = sim.Pairs
-		res.Counters = env.Counters()
-		res.Outcomes = sim.Outcomes
-		res.Desc = env.Desc
-		res.Notes = env.Notes
-		res.Log = sim.Log
-		finished = true
-	})
+	}
 	return
 }
 
